@@ -5,6 +5,14 @@ Import ListNotations.
 Open Scope N_scope.
 
 (* ---------- makeDeviceMap ---------- *)
+Lemma key_eqb_eq : forall x y, key_eqb x y = true <-> x = y.
+Proof.
+  intros [a b] [c d]. unfold key_eqb. cbn [fst snd]. rewrite andb_true_iff, !N.eqb_eq.
+  split; [intros [-> ->]; reflexivity|intros E; inversion E; split; reflexivity].
+Qed.
+Lemma key_eqb_refl : forall x, key_eqb x x = true.
+Proof. intros. apply key_eqb_eq. reflexivity. Qed.
+
 Lemma fold_map_add_none : forall devs (m : dev_map) a,
   (forall d, In d devs -> d_addr d <> Some a) ->
   fold_left map_add devs m a = m a.
@@ -12,8 +20,8 @@ Proof.
   induction devs as [|d devs IH]; intros m a H; [reflexivity|].
   cbn [fold_left]. rewrite IH by (intros d' Hd'; apply H; right; exact Hd').
   unfold map_add. destruct (d_addr d) as [x|] eqn:E; [|reflexivity].
-  destruct (a =? x) eqn:Ex; [|reflexivity].
-  apply N.eqb_eq in Ex. subst x. exfalso. apply (H d); [left; reflexivity|exact E].
+  destruct (key_eqb a x) eqn:Ex; [|reflexivity].
+  apply key_eqb_eq in Ex. subst x. exfalso. apply (H d); [left; reflexivity|exact E].
 Qed.
 
 (* every entry of the map is a registered device with that address *)
@@ -25,8 +33,8 @@ Proof.
   cbn [fold_left] in H. apply IH in H. destruct H as [[H1 H2]|H].
   - left. split; [right; exact H1|exact H2].
   - unfold map_add in H. destruct (d_addr d0) as [x|] eqn:E; [|right; exact H].
-    destruct (a =? x) eqn:Ex; [|right; exact H].
-    apply N.eqb_eq in Ex. subst x. inversion H; subst d0. left. split; [left; reflexivity|exact E].
+    destruct (key_eqb a x) eqn:Ex; [|right; exact H].
+    apply key_eqb_eq in Ex. subst x. inversion H; subst d0. left. split; [left; reflexivity|exact E].
 Qed.
 
 Lemma device_map_in : forall devs a d,
@@ -41,37 +49,37 @@ Lemma fold_map_add_some : forall devs (m : dev_map) a,
 Proof.
   induction devs as [|d0 devs IH]; intros m a (d & Hin & Ha); [destruct Hin|].
   cbn [fold_left].
-  destruct (existsb (fun d => match d_addr d with Some x => x =? a | None => false end) devs) eqn:E.
+  destruct (existsb (fun d => match d_addr d with Some x => key_eqb x a | None => false end) devs) eqn:E.
   - apply existsb_exists in E. destruct E as (d1 & Hin1 & E1).
     apply IH. exists d1. split; [exact Hin1|].
-    destruct (d_addr d1) as [x|]; [|discriminate]. apply N.eqb_eq in E1. subst. reflexivity.
+    destruct (d_addr d1) as [x|]; [|discriminate]. apply key_eqb_eq in E1. subst. reflexivity.
   - destruct Hin as [->|Hin].
     + rewrite fold_map_add_none.
-      * unfold map_add. rewrite Ha, N.eqb_refl. exists d. reflexivity.
-      * intros d' Hd' E'. assert (X : existsb (fun d => match d_addr d with Some x => x =? a | None => false end) devs = true).
-        { apply existsb_exists. exists d'. split; [exact Hd'|]. rewrite E'. apply N.eqb_refl. }
+      * unfold map_add. rewrite Ha, key_eqb_refl. exists d. reflexivity.
+      * intros d' Hd' E'. assert (X : existsb (fun d => match d_addr d with Some x => key_eqb x a | None => false end) devs = true).
+        { apply existsb_exists. exists d'. split; [exact Hd'|]. rewrite E'. apply key_eqb_refl. }
         rewrite X in E. discriminate.
-    + exfalso. assert (X : existsb (fun d => match d_addr d with Some x => x =? a | None => false end) devs = true).
-      { apply existsb_exists. exists d. split; [exact Hin|]. rewrite Ha. apply N.eqb_refl. }
+    + exfalso. assert (X : existsb (fun d => match d_addr d with Some x => key_eqb x a | None => false end) devs = true).
+      { apply existsb_exists. exists d. split; [exact Hin|]. rewrite Ha. apply key_eqb_refl. }
       rewrite X in E. discriminate.
 Qed.
 
-Lemma skip_registered_up : forall devs a,
-  (exists d, In d devs /\ d_addr d = Some a) ->
-  (forall d, In d devs -> d_addr d = Some a -> d_state d = Up) ->
-  skip (make_device_map devs) a = true.
+Lemma skip_registered_up : forall devs port a,
+  (exists d, In d devs /\ d_addr d = Some (a, port)) ->
+  (forall d, In d devs -> d_addr d = Some (a, port) -> d_state d = Up) ->
+  skip (make_device_map devs) port a = true.
 Proof.
-  intros devs a Hex Hup. unfold skip.
-  destruct (fold_map_add_some devs (fun _ => None) a Hex) as (d & Hd).
+  intros devs port a Hex Hup. unfold skip.
+  destruct (fold_map_add_some devs (fun _ => None) (a, port) Hex) as (d & Hd).
   unfold make_device_map. rewrite Hd.
   apply device_map_in in Hd. destruct Hd as [Hin Ha].
   unfold is_up. rewrite (Hup d Hin Ha). reflexivity.
 Qed.
 
-Lemma skip_unregistered : forall devs a,
-  (forall d, In d devs -> d_addr d <> Some a) -> skip (make_device_map devs) a = false.
+Lemma skip_unregistered : forall devs port a,
+  (forall d, In d devs -> d_addr d <> Some (a, port)) -> skip (make_device_map devs) port a = false.
 Proof.
-  intros devs a H. unfold skip, make_device_map. rewrite fold_map_add_none by exact H. reflexivity.
+  intros devs port a H. unfold skip, make_device_map. rewrite fold_map_add_none by exact H. reflexivity.
 Qed.
 
 (* ---------- worker invariants ---------- *)
@@ -79,11 +87,12 @@ Section Worker.
   Variable tm : timers.
   Variable dl : N.
   Variable m : dev_map.
+  Variable port : N.
   Variable hosts : N -> behaviour.
 
-  Let step := worker_step tm dl m hosts.
+  Let step := worker_step tm dl m port hosts.
 
-  Definition probed_ok (st : wstate) : Prop := forall x, In x (probed st) -> skip m x = false.
+  Definition probed_ok (st : wstate) : Prop := forall x, In x (probed st) -> skip m port x = false.
 
   Lemma step_probed_ok : forall st a, probed_ok st -> probed_ok (step st a).
   Proof.
@@ -91,7 +100,7 @@ Section Worker.
     destruct (stopped st); [exact H|].
     destruct (clock st) as [t|]; [|exact H].
     destruct (dl <=? t); [exact H|].
-    destruct (skip m a) eqn:Es; [exact H|].
+    destruct (skip m port a) eqn:Es; [exact H|].
     destruct (probe_time tm (hosts a)); intros x [<-|Hx]; try exact Es; apply H; exact Hx.
   Qed.
 
@@ -103,7 +112,7 @@ Section Worker.
 
   Definition reported_ok (seen : list N) (st : wstate) : Prop :=
     forall a i, In (a, i) (reported st) ->
-      In a seen /\ skip m a = false /\ probe_result (hosts a) = Some i.
+      In a seen /\ skip m port a = false /\ probe_result (hosts a) = Some i.
 
   Lemma step_reported_ok : forall seen st a, reported_ok seen st -> reported_ok (seen ++ [a]) (step st a).
   Proof.
@@ -115,7 +124,7 @@ Section Worker.
     destruct (stopped st); [exact W|].
     destruct (clock st) as [t|]; [|exact W].
     destruct (dl <=? t); [exact W|].
-    destruct (skip m a) eqn:Es; [exact W|].
+    destruct (skip m port a) eqn:Es; [exact W|].
     destruct (probe_time tm (hosts a)); [|exact W].
     destruct (probe_result (hosts a)) as [i0|] eqn:Ep; [|exact W].
     intros x i [E|Hx]; [|apply W; exact Hx].
@@ -143,7 +152,7 @@ Section Worker.
     destruct (stopped st); [exists t; split; assumption|].
     rewrite Ht.
     destruct (dl <=? t) eqn:Ed; [exists t; split; [reflexivity|exact Hle]|].
-    destruct (skip m a); [exists t; split; assumption|].
+    destruct (skip m port a); [exists t; split; assumption|].
     destruct (probes_bounded (hosts a)) as (d & Hd & Hda). rewrite Hd.
     exists (t + d). split; [reflexivity|]. apply N.leb_gt in Ed. lia.
   Qed.
@@ -156,28 +165,28 @@ Section Worker.
 End Worker.
 
 (* ---------- the three run-level statements ---------- *)
-Lemma registered_up_skipped : forall tm dl devs hosts work a,
-  (exists d, In d devs /\ d_addr d = Some a) ->
-  (forall d, In d devs -> d_addr d = Some a -> d_state d = Up) ->
-  ~ In a (run_probed tm dl (make_device_map devs) hosts work).
+Lemma registered_up_skipped : forall tm dl devs port hosts work a,
+  (exists d, In d devs /\ d_addr d = Some (a, port)) ->
+  (forall d, In d devs -> d_addr d = Some (a, port) -> d_state d = Up) ->
+  ~ In a (run_probed tm dl (make_device_map devs) port hosts work).
 Proof.
-  intros tm dl devs hosts work a Hex Hup Hin.
+  intros tm dl devs port hosts work a Hex Hup Hin.
   unfold run_probed in Hin. apply in_flat_map in Hin. destruct Hin as (addrs & _ & Hin).
-  assert (P : probed_ok (make_device_map devs) (worker_run tm dl (make_device_map devs) hosts addrs 0)).
+  assert (P : probed_ok (make_device_map devs) port (worker_run tm dl (make_device_map devs) port hosts addrs 0)).
   { unfold worker_run. apply run_probed_ok. intros x []. }
   specialize (P a Hin). rewrite skip_registered_up in P by assumption. discriminate.
 Qed.
 
-Lemma only_identified_reported : forall tm dl m hosts work a i,
-  In (a, i) (run_reported tm dl m hosts work) ->
-  In a (concat work) /\ skip m a = false /\
+Lemma only_identified_reported : forall tm dl m port hosts work a i,
+  In (a, i) (run_reported tm dl m port hosts work) ->
+  In a (concat work) /\ skip m port a = false /\
   exists c t rid,
     (hosts a = Answer c (Some (t, rid)) \/ hosts a = AnswerNoClose c (Some (t, rid))) /\
     probe_info c (Some (t, rid)) = Some i.
 Proof.
-  intros tm dl m hosts work a i Hin.
+  intros tm dl m port hosts work a i Hin.
   unfold run_reported in Hin. apply in_flat_map in Hin. destruct Hin as (addrs & Hw & Hin).
-  assert (R : reported_ok m hosts ([] ++ addrs) (worker_run tm dl m hosts addrs 0)).
+  assert (R : reported_ok m port hosts ([] ++ addrs) (worker_run tm dl m port hosts addrs 0)).
   { unfold worker_run. apply run_reported_ok. intros x y []. }
   destruct (R a i Hin) as (H1 & H2 & H3). cbn [app] in H1.
   split; [apply in_concat; exists addrs; split; assumption|]. split; [exact H2|].
@@ -199,19 +208,19 @@ Proof.
   - intros o' Ho'. apply Hl. right. exact Ho'.
 Qed.
 
-Lemma run_time_bounded_gen : forall tm dl m hosts work A,
+Lemma run_time_bounded_gen : forall tm dl m port hosts work A,
   (forall b, exists d, probe_time tm b = Some d /\ d <= A) ->
-  exists t, run_time tm dl m hosts work = Some t /\ t <= dl + A.
+  exists t, run_time tm dl m port hosts work = Some t /\ t <= dl + A.
 Proof.
-  intros tm dl m hosts work A Hb. unfold run_time.
+  intros tm dl m port hosts work A Hb. unfold run_time.
   assert (E : forall acc,
-    fold_left (fun acc addrs => max_opt acc (clock (worker_run tm dl m hosts addrs 0))) work acc =
-    fold_left max_opt (map (fun addrs => clock (worker_run tm dl m hosts addrs 0)) work) acc).
+    fold_left (fun acc addrs => max_opt acc (clock (worker_run tm dl m port hosts addrs 0))) work acc =
+    fold_left max_opt (map (fun addrs => clock (worker_run tm dl m port hosts addrs 0)) work) acc).
   { induction work as [|w work IH]; intros acc; [reflexivity|]. cbn [fold_left map]. apply IH. }
   rewrite E. apply fold_max_opt_bounded.
   - exists 0. split; [reflexivity|lia].
   - intros o Ho. apply in_map_iff in Ho. destruct Ho as (addrs & <- & _).
-    unfold worker_run. apply (run_clock_ok tm dl m hosts A Hb).
+    unfold worker_run. apply (run_clock_ok tm dl m port hosts A Hb).
     exists 0. split; [reflexivity|lia].
 Qed.
 
@@ -222,19 +231,19 @@ Proof.
   destruct b; eexists; (split; [reflexivity|]); lia.
 Qed.
 
-Lemma run_time_bounded : forall tm r dl m hosts work, read_deadline tm = Some r ->
-  exists t, run_time tm dl m hosts work = Some t /\ t <= dl + allowance tm.
+Lemma run_time_bounded : forall tm r dl m port hosts work, read_deadline tm = Some r ->
+  exists t, run_time tm dl m port hosts work = Some t /\ t <= dl + allowance tm.
 Proof.
   intros. apply run_time_bounded_gen. apply (probe_time_bounded tm r). assumption.
 Qed.
 
 (* without a read deadline (the code as it is) one silent host that is not skipped blocks the run *)
-Lemma run_time_unbounded : forall t s dl m hosts a,
-  0 < dl -> skip m a = false ->
+Lemma run_time_unbounded : forall t s dl m port hosts a,
+  0 < dl -> skip m port a = false ->
   (hosts a = Silent \/ hosts a = StallExchange \/ exists c i, hosts a = AnswerNoClose c i) ->
-  run_time (go_timers t s) dl m hosts [[a]] = None.
+  run_time (go_timers t s) dl m port hosts [[a]] = None.
 Proof.
-  intros t s dl m hosts a Hdl Hs Hh.
+  intros t s dl m port hosts a Hdl Hs Hh.
   unfold run_time, worker_run. cbn [fold_left]. unfold worker_step at 1. cbn [w_init stopped clock].
   assert (E : dl <=? 0 = false) by (apply N.leb_gt; exact Hdl).
   rewrite E, Hs.
@@ -242,8 +251,32 @@ Proof.
 Qed.
 
 Lemma run_time_refuted : forall t s dl, 0 < dl ->
-  exists m hosts work, run_time (go_timers t s) dl m hosts work = None.
+  exists m port hosts work, run_time (go_timers t s) dl m port hosts work = None.
 Proof.
-  intros t s dl H. exists (fun _ => None), (fun _ => Silent), [[1]].
+  intros t s dl H. exists (fun _ => None), 5084, (fun _ => Silent), [[1]].
   apply run_time_unbounded; [exact H|reflexivity|left; reflexivity].
+Qed.
+
+(* the port is part of the key: devices registered on OTHER ports of a host neither hide nor
+   replace the entry for (host, scan port) *)
+Lemma other_ports_irrelevant : forall devs port a,
+  skip (make_device_map devs) port a =
+  skip (make_device_map (filter (fun d => match d_addr d with
+                                          | Some k => key_eqb k (a, port) | None => false end) devs)) port a.
+Proof.
+  intros devs port a. unfold skip, make_device_map.
+  assert (G : forall (m1 m2 : dev_map), m1 (a, port) = m2 (a, port) ->
+    fold_left map_add devs m1 (a, port) =
+    fold_left map_add (filter (fun d => match d_addr d with
+                                        | Some k => key_eqb k (a, port) | None => false end) devs) m2 (a, port)).
+  { induction devs as [|d devs IH]; intros m1 m2 E; [exact E|].
+    cbn [fold_left filter]. destruct (d_addr d) as [k|] eqn:Ek.
+    - destruct (key_eqb k (a, port)) eqn:Ekk.
+      + cbn [fold_left]. apply IH. unfold map_add. rewrite Ek.
+        apply key_eqb_eq in Ekk. subst k. rewrite key_eqb_refl. reflexivity.
+      + apply IH. unfold map_add. rewrite Ek.
+        destruct (key_eqb (a, port) k) eqn:E2; [|exact E].
+        apply key_eqb_eq in E2. subst k. rewrite key_eqb_refl in Ekk. discriminate.
+    - apply IH. unfold map_add. rewrite Ek. exact E. }
+  rewrite (G (fun _ => None) (fun _ => None) eq_refl). reflexivity.
 Qed.
